@@ -50,7 +50,7 @@ Flow(st, f, v) == [st |-> st, flow |-> f, v |-> v, err |-> ""]
 (* Expressions: [k |-> "lit", v] | "var", x | "add", l, r | "lt", l, r | "call", f, a        *)
 (* Eval returns a result whose v is the value (for "lt": 1 true, 0 false, Null unknown)     *)
 
-RECURSIVE Eval(_, _, _), Exec(_, _, _), ExecList(_, _, _), Loop(_, _, _, _), Call(_, _, _, _), IfChain(_, _, _, _)
+RECURSIVE Eval(_, _, _), Exec(_, _, _), ExecList(_, _, _), Loop(_, _, _, _), Call(_, _, _, _), IfChain(_, _, _, _), CurLoop(_, _, _, _, _)
 
 Eval(e, st, fuel) ==
   CASE e.k = "lit" -> Flow(st, "next", e.v)
@@ -78,8 +78,13 @@ Call(f, arg, st, fuel) ==
   IF i = 0 THEN Fail(st, "FunctionNotExist")
   ELSE IF fuel = 0 THEN Flow(st, "fuel", Null)
   ELSE LET def == st.blocks[i].funs[f]
-           inner == [st EXCEPT !.blocks = <<Block([x \in {def.p} |-> arg], NoVars)>> \o st.blocks]
-           r == ExecList(def.body, inner, fuel - 1)
+           inner0 == [st EXCEPT !.blocks = <<Block([x \in {def.p} |-> arg], NoVars)>> \o st.blocks]
+           \* an optional second parameter (def.q # ""): its DEFAULT expression is evaluated at EVERY call that omits it, in
+           \* the new block, after the first parameter is bound (it may refer to it and to whatever the caller's chain holds)
+           dv == IF def.q = "" THEN Ok(inner0) ELSE Eval(def.d, inner0, fuel - 1)
+           inner == IF def.q = "" \/ dv.flow # "next" THEN inner0
+                    ELSE [dv.st EXCEPT !.blocks[1].vars = (def.q :> dv.v) @@ @]
+           r == IF dv.flow # "next" THEN dv ELSE ExecList(def.body, inner, fuel - 1)
            back == [r.st EXCEPT !.blocks = Tail(r.st.blocks)] IN
        CASE r.flow \in {"error", "exit", "fuel"} -> [r EXCEPT !.st = back]
          [] r.flow = "return" -> Flow(back, "next", r.v)
@@ -112,6 +117,22 @@ Loop(c, body, st, fuel) ==
               [] r.flow = "break" -> Ok(r.st)
               [] OTHER -> r                       \* error, exit, return, fuel
 
+\* WHILE [VAR] @x IN c: one child block for the loop, cleared before every fetch; with VAR the variable is declared
+\* in it, otherwise the innermost @x of the chain receives the row; ci = index of the cursor's block in st.blocks
+CurLoop(s, k, ci, st, fuel) ==
+  LET vs == st.blocks[ci].curs[s.c].vs IN
+  IF fuel = 0 THEN Flow(st, "fuel", Null)
+  ELSE IF k > Len(vs) THEN Ok(st)
+  ELSE LET cleared == [st EXCEPT !.blocks[1] = EmptyBlock]
+           j == FindVar(cleared.blocks, s.x, 1)
+           bound == IF s.decl THEN [cleared EXCEPT !.blocks[1].vars = (s.x :> vs[k]) @@ @]
+                    ELSE IF j = 0 THEN cleared ELSE [cleared EXCEPT !.blocks[j].vars[s.x] = vs[k]] IN
+       IF ~s.decl /\ j = 0 THEN Fail(cleared, "UndeclaredVariable")
+       ELSE LET r == ExecList(s.body, bound, fuel) IN
+            CASE r.flow \in {"next", "continue"} -> CurLoop(s, k + 1, ci, r.st, fuel - 1)
+              [] r.flow = "break" -> Ok(r.st)
+              [] OTHER -> r
+
 Exec(s, st, fuel) ==
   CASE s.k = "var" ->      \* VAR @x := e
          LET r == Eval(s.e, st, fuel) IN
@@ -142,12 +163,23 @@ Exec(s, st, fuel) ==
          LET r == Eval(s.e, st, fuel) IN IF r.flow # "next" THEN r ELSE Flow(r.st, "return", r.v)
     [] s.k = "curdecl" ->  \* DECLARE c CURSOR FOR SELECT v : in the innermost block; the same block cannot hold two of a name
          IF s.c \in DOMAIN st.blocks[1].curs THEN Fail(st, "CursorRedeclared")
-         ELSE Ok([st EXCEPT !.blocks[1].curs = (s.c :> s.v) @@ @])
+         ELSE Ok([st EXCEPT !.blocks[1].curs = (s.c :> [vs |-> s.vs, open |-> FALSE]) @@ @])
     [] s.k = "curuse" ->   \* OPEN c; FETCH c INTO @x; CLOSE c : the innermost cursor of that name gives its value to @x
          LET i == FindCur(st.blocks, s.c, 1)  j == FindVar(st.blocks, s.x, 1) IN
          IF i = 0 THEN Fail(st, "UndeclaredCursor")
+         ELSE IF st.blocks[i].curs[s.c].open THEN Fail(st, "CursorOpen")
          ELSE IF j = 0 THEN Fail(st, "UndeclaredVariable")
-         ELSE Ok([st EXCEPT !.blocks[j].vars[s.x] = st.blocks[i].curs[s.c]])
+         ELSE IF st.blocks[i].curs[s.c].vs = <<>> THEN Ok(st)
+         ELSE Ok([st EXCEPT !.blocks[j].vars[s.x] = st.blocks[i].curs[s.c].vs[1]])
+    [] s.k = "whilein" ->  \* OPEN c; WHILE [VAR] @x IN c DO body END WHILE; CLOSE c
+         LET i == FindCur(st.blocks, s.c, 1) IN
+         IF i = 0 THEN Fail(st, "UndeclaredCursor")
+         ELSE IF st.blocks[i].curs[s.c].open THEN Fail(st, "CursorOpen")
+         ELSE LET r == CurLoop(s, 1, i + 1, [st EXCEPT !.blocks = <<EmptyBlock>> \o st.blocks], fuel)
+                  back == [r.st EXCEPT !.blocks = Tail(r.st.blocks)] IN
+              \* RETURN / EXIT leave the loop with the cursor still open (CLOSE is not reached)
+              IF r.flow \in {"return", "exit"} THEN [r EXCEPT !.st = [back EXCEPT !.blocks[i].curs[s.c].open = TRUE]]
+              ELSE [r EXCEPT !.st = back]
     [] s.k = "curdispose" ->
          LET i == FindCur(st.blocks, s.c, 1) IN
          IF i = 0 THEN Fail(st, "UndeclaredCursor") ELSE Ok([st EXCEPT !.blocks[i].curs = Remove(@, s.c)])
@@ -160,7 +192,7 @@ Exec(s, st, fuel) ==
          IF i = 0 THEN Fail(st, "UndeclaredTemporaryTable") ELSE Ok([st EXCEPT !.blocks[i].tabs = Remove(@, s.t)])
     [] s.k = "func" ->     \* DECLARE f FUNCTION (@p) AS BEGIN body END
          IF s.f \in DOMAIN st.blocks[1].funs THEN Fail(st, "FunctionRedeclared")     \* same block only: inner blocks may shadow
-         ELSE Ok([st EXCEPT !.blocks[1].funs = (s.f :> [p |-> s.p, body |-> s.body]) @@ @])
+         ELSE Ok([st EXCEPT !.blocks[1].funs = (s.f :> [p |-> s.p, body |-> s.body, q |-> s.q, d |-> s.d]) @@ @])
 
 ExecList(ss, st, fuel) ==
   IF ss = <<>> THEN Ok(st)
